@@ -12,7 +12,7 @@ def _replay(run, inputs, rp, repo, verif):
 
 _IT = [(r'vector<Message\*>::iterator it = c\.begin\(\); it != c\.end\(\); it\+\+', 'size_t it = 0; it < pq_size(self); it++', 1),
        (r'\*it == __x', 'pq_at(self, it) == __x', 1), (r'c\.erase\(it\);', 'pq_erase(self, it);', 1),
-       (r'std::make_heap\(c\.begin\(\), c\.end\(\), comp\);', 'pq_make_heap(self);', 1)]
+       (r'std::make_heap\(c\.begin\(\), c\.end\(\), comp\);', 'pq_make_heap(self);', (0, 1))]
 
 UNIT = dict(
     replay=_replay,
